@@ -34,7 +34,7 @@ def cases(draw, exclude: frozenset = frozenset()):
 	pkg = {m: rnd.choice(['srca', 'srcb', 'srca', 'srcb', 'srca/deep', 'srcb/srcb', 'srcb/my_srcb', 'other']) for m in mods}  # the prefix text occurs again inside some paths
 	ops = []
 	for _ in range(rnd.randint(3, 9)):
-		k = rnd.choice(['edit', 'edit', 'run', 'run', 'run', 'run_f', 'delete_output', 'corrupt_header'])
+		k = rnd.choice(['edit', 'edit', 'edit_ws', 'run', 'run', 'run', 'run_f', 'delete_output', 'corrupt_header'])
 		m = rnd.choice(mods)
 		visible = rnd.randint(0, P.VISIBLE[m] - 1)
 		if 'dependency-visible-edit' in exclude and P.dependents(graph, m):
@@ -77,6 +77,7 @@ def judge(scratch: str, case: dict) -> tuple[list[tuple[str, str]], dict]:
 		for m in graph:
 			P.bump_write(os.path.join(proj, pkg[m], m + '.py'), P.module_source(m, pkg, 0, 1, graph))
 		step = 0
+		state = {m: (0, 1) for m in graph}
 		last_edit = {m: 0 for m in graph}
 		last_gen = {m: -1 for m in graph}
 		edited_dep_since_run = False
@@ -99,10 +100,16 @@ def judge(scratch: str, case: dict) -> tuple[list[tuple[str, str]], dict]:
 				break
 			step += 1
 			path_out = os.path.join(proj, expected_path(pkg[m], m))
+			if kind == 'edit_ws':
+				# only the number of blanks behind a comment changes
+				vis0, inv0 = state[m]
+				visible, invisible = vis0, inv0 % 10 + 10 * ((inv0 // 10 + 1) % 3)
+				kind = 'edit'
 			if kind == 'edit':
+				state[m] = (visible, invisible)
 				P.bump_write(os.path.join(proj, pkg[m], m + '.py'), P.module_source(m, pkg, visible, invisible, graph))
 				last_edit[m] = step
-				trace.append(f'edit({m}, visible={visible}, body={invisible})')
+				trace.append(f'edit({m}, visible={visible}, body={invisible % 10}, blanks behind comment={invisible // 10})')
 				if P.dependents(graph, m) and runs:
 					edited_dep_since_run = True
 			elif kind == 'delete_output':
